@@ -13,6 +13,7 @@ import json
 import math
 import os
 from collections import OrderedDict
+from collections.abc import Mapping
 from fractions import Fraction
 from itertools import accumulate
 
@@ -58,6 +59,28 @@ def build_key(k):
     return k["s"] if "s" in k else k["i"]
 
 
+class CMap(Mapping):
+    """a Mapping that is not a dict"""
+    def __init__(self, d):
+        self._d = dict(d)
+
+    def __getitem__(self, k):
+        return self._d[k]
+
+    def __iter__(self):
+        return iter(self._d)
+
+    def __len__(self):
+        return len(self._d)
+
+    def __repr__(self):
+        return "CMap(%r)" % self._d
+
+
+DENSE_WRAPS = ["list", "tuple", "lazy", "hashable", "head", "encode", "keep"]
+SPARSE_WRAPS = ["dict", "lazy", "hashable", "proxy", "userdict", "chainmap", "ordered", "custom", "encode", "drop"]
+
+
 def build_val(v):
     k = v["k"]
     if k == "none":
@@ -75,6 +98,15 @@ def build_val(v):
         if w == "hashable":
             from coba.primitives import HashableDense
             return HashableDense(items)
+        if w == "head":
+            from coba.pipes.rows import HeadDense
+            return HeadDense(items, {"h%d" % i: i for i in range(len(items))})
+        if w == "encode":
+            from coba.pipes.rows import EncodeDense
+            return EncodeDense(items, [_ident] * len(items))
+        if w == "keep":      # a row view that hides a trailing column
+            from coba.pipes.rows import KeepDense
+            return KeepDense(items + ["hidden"], {i: i for i in range(len(items))}, [True] * len(items) + [False], len(items), None)
         return items
     if k == "sparse":
         d = {build_key(kk): build_item(i) for kk, i in v["v"]}
@@ -85,6 +117,26 @@ def build_val(v):
         if w == "hashable":
             from coba.primitives import HashableSparse
             return HashableSparse(d)
+        if w == "proxy":
+            import types
+            return types.MappingProxyType(d)
+        if w == "userdict":
+            import collections
+            return collections.UserDict(d)
+        if w == "chainmap":
+            import collections
+            return collections.ChainMap(d)
+        if w == "ordered":
+            import collections
+            return collections.OrderedDict(d)
+        if w == "custom":
+            return CMap(d)
+        if w == "encode":
+            from coba.pipes.rows import EncodeSparse
+            return EncodeSparse(d, {}, set())
+        if w == "drop":
+            from coba.pipes.rows import DropSparse
+            return DropSparse(d, set())
         return d
     raise ValueError(k)
 
@@ -173,6 +225,10 @@ def run_history(case):
             except Exception as e:
                 outs.append({"err": type(e).__name__, "msg": str(e)[:200]})
     return outs
+
+
+def _ident(x):
+    return x
 
 
 def build_terms(case):
@@ -494,7 +550,9 @@ def fmt_out(o, limit=260):
 def show_call(case):
     def sv(v):
         try:
-            return repr(build_val_plain(v))
+            r = repr(build_val_plain(v))
+            w = v.get("wrap")
+            return r if w in (None, "list", "tuple", "dict") else "%s:%s" % (w, r)
         except Exception:
             return "?"
     return "InteractionsEncoder(%r).encode(%s)" % (build_terms(case), ", ".join("%s=%s" % (n, sv(v)) for n, v in case["ns"]))
@@ -1056,7 +1114,7 @@ class C20(Property):
         if kind == "scalar_str":
             return {"k": "scalar", "v": {"s": rng.choice(["abc", "d", "0", "", "x1"])}}
         if kind == "dense":
-            return {"k": "dense", "v": self.gen_numbers(rng, pool, n, state), "wrap": W(rng, [("list", 6), ("tuple", 2), ("lazy", 1), ("hashable", 1)])}
+            return {"k": "dense", "v": self.gen_numbers(rng, pool, n, state), "wrap": W(rng, [("list", 8), ("tuple", 3), ("lazy", 1), ("hashable", 1), ("head", 1), ("encode", 1), ("keep", 1)])}
         if kind == "dense_str":
             items = self.gen_numbers(rng, pool, max(n, 1), state)
             for i in range(len(items)):
@@ -1091,7 +1149,7 @@ class C20(Property):
         for i in range(len(vals)):
             if rng.chance(0.2):
                 vals[i] = {"s": rng.choice(["z", "a", "1", "lv"])}
-        return {"k": "sparse", "v": [[k, v] for k, v in zip(ks, vals)], "wrap": W(rng, [("dict", 6), ("lazy", 1), ("hashable", 1)])}
+        return {"k": "sparse", "v": [[k, v] for k, v in zip(ks, vals)], "wrap": W(rng, [("dict", 8), ("lazy", 1), ("hashable", 1), ("proxy", 1), ("userdict", 1), ("chainmap", 1), ("ordered", 1), ("custom", 1), ("encode", 1), ("drop", 1)])}
 
     def gen_term(self, rng, letters, focus):
         if focus:
@@ -1416,6 +1474,16 @@ class C20(Property):
             {"terms": ["xx", "x"], "ns": [["x", D({"n": [2 ** 53 + 1, 1]}, {"s": "t"}, {"n": [4611686018427387847, 1]})]]},
             {"terms": ["xx", "x"], "ns": [["x", D({"n": [2 ** 53 + 1, 1]}, {"n": [4611686018427387847, 1]})]]},
             {"terms": ["xa", {"n": [1, 3], "q": True}], "ns": [["x", D({"n": [1, 3], "q": True}, {"n": [10 ** 17 + 3, 7], "q": True})], ["a", {"k": "sparse", "wrap": "dict", "v": [[{"s": "k"}, {"n": [2, 9], "q": True}]]}]]},
+            # namespace container flavours (seeded round c20f: fm2): every Mapping flavour sparse, every coba Dense flavour dense, mixed
+            {"terms": ["xa", "xx"], "ns": [["x", {"k": "sparse", "wrap": "proxy", "v": [[{"s": "p"}, {"n": [2, 1]}], [{"s": "q"}, {"n": [3, 1]}]]}], ["a", {"k": "dense", "wrap": "tuple", "v": [{"n": [5, 1]}, {"n": [7, 1]}]}]]},
+            {"terms": ["xa", "xx"], "ns": [["x", {"k": "sparse", "wrap": "userdict", "v": [[{"s": "p"}, {"n": [2, 1]}], [{"s": "q"}, {"n": [3, 1]}]]}], ["a", {"k": "dense", "wrap": "head", "v": [{"n": [5, 1]}, {"n": [7, 1]}]}]]},
+            {"terms": ["xa", "xx"], "ns": [["x", {"k": "sparse", "wrap": "chainmap", "v": [[{"s": "p"}, {"n": [2, 1]}], [{"s": "q"}, {"n": [3, 1]}]]}], ["a", {"k": "dense", "wrap": "encode", "v": [{"n": [5, 1]}, {"n": [7, 1]}]}]]},
+            {"terms": ["xa", "xx"], "ns": [["x", {"k": "sparse", "wrap": "ordered", "v": [[{"s": "p"}, {"n": [2, 1]}], [{"s": "q"}, {"n": [3, 1]}]]}], ["a", {"k": "dense", "wrap": "keep", "v": [{"n": [5, 1]}, {"n": [7, 1]}]}]]},
+            {"terms": ["xa", "xx"], "ns": [["x", {"k": "sparse", "wrap": "custom", "v": [[{"s": "p"}, {"n": [2, 1]}], [{"s": "q"}, {"n": [3, 1]}]]}], ["a", {"k": "dense", "wrap": "hashable", "v": [{"n": [5, 1]}, {"n": [7, 1]}]}]]},
+            {"terms": ["xa", "xx"], "ns": [["x", {"k": "sparse", "wrap": "encode", "v": [[{"s": "p"}, {"n": [2, 1]}], [{"s": "q"}, {"n": [3, 1]}]]}], ["a", {"k": "dense", "wrap": "lazy", "v": [{"n": [5, 1]}, {"n": [7, 1]}]}]]},
+            {"terms": ["xa", "xx"], "ns": [["x", {"k": "sparse", "wrap": "drop", "v": [[{"s": "p"}, {"n": [2, 1]}], [{"s": "q"}, {"n": [3, 1]}]]}], ["a", {"k": "dense", "wrap": "list", "v": [{"n": [5, 1]}, {"n": [7, 1]}]}]]},
+            {"terms": ["xa"], "ns": [["x", {"k": "sparse", "wrap": "custom", "v": [[{"s": "p"}, {"s": "v"}]]}], ["a", {"k": "sparse", "wrap": "proxy", "v": [[{"i": 1}, {"n": [3, 1]}]]}]]},
+            {"terms": ["xxa"], "ns": [["x", {"k": "dense", "wrap": "keep", "v": [{"n": [2, 1]}, {"n": [3, 1]}, {"n": [5, 1]}]}], ["a", {"k": "dense", "wrap": "head", "v": [{"n": [7, 1]}]}]]},
             # the callers with their default term lists
             {"caller": {"kind": "linucb", "features": None, "context": P(2, 3), "actions": [P(5, 7), P(11, 13)]}},
             {"caller": {"kind": "linucb", "features": None, "context": {"k": "none"}, "actions": [P(5, 7), P(11, 13)]}},
@@ -1899,24 +1967,38 @@ class C20(Property):
                  "from coba.encodings import InteractionsEncoder"]
         vals = [v for ns in calls for _, v in ns]
         wraps = set(v.get("wrap") for v in vals)
-        if "lazy" in wraps:
-            lines.append("from coba.pipes.rows import LazyDense, LazySparse")
-        if "hashable" in wraps:
-            lines.append("from coba.primitives import HashableDense, HashableSparse")
         scs = set(it.get("sc") for one in [{"ns": ns} for ns in calls] for it in all_items(one))
         if "cat" in scs:
             lines.append("from coba.primitives import Categorical")
         if "sub" in scs:
             lines.append("class S(str): pass")
 
+        CODE = {("dense", "lazy"): ("from coba.pipes.rows import LazyDense", "LazyDense(%s)"),
+                ("sparse", "lazy"): ("from coba.pipes.rows import LazySparse", "LazySparse(%s)"),
+                ("dense", "hashable"): ("from coba.primitives import HashableDense", "HashableDense(%s)"),
+                ("sparse", "hashable"): ("from coba.primitives import HashableSparse", "HashableSparse(%s)"),
+                ("dense", "head"): ("from coba.pipes.rows import HeadDense", "HeadDense(%s, {})"),
+                ("dense", "encode"): ("from coba.pipes.rows import EncodeDense", "(lambda r: EncodeDense(r, [lambda x: x] * len(r)))(%s)"),
+                ("dense", "keep"): ("from coba.pipes.rows import KeepDense", "(lambda r: KeepDense(r + ['hidden'], {i: i for i in range(len(r))}, [True] * len(r) + [False], len(r), None))(%s)"),
+                ("sparse", "proxy"): ("import types", "types.MappingProxyType(%s)"),
+                ("sparse", "userdict"): ("import collections", "collections.UserDict(%s)"),
+                ("sparse", "chainmap"): ("import collections", "collections.ChainMap(%s)"),
+                ("sparse", "ordered"): ("import collections", "collections.OrderedDict(%s)"),
+                ("sparse", "custom"): ("import collections.abc\nclass CMap(collections.abc.Mapping):\n    def __init__(s, d): s._d = dict(d)\n    def __getitem__(s, k): return s._d[k]\n"
+                                       "    def __iter__(s): return iter(s._d)\n    def __len__(s): return len(s._d)", "CMap(%s)"),
+                ("sparse", "encode"): ("from coba.pipes.rows import EncodeSparse", "EncodeSparse(%s, {}, set())"),
+                ("sparse", "drop"): ("from coba.pipes.rows import DropSparse", "DropSparse(%s, set())")}
+        for v in vals:
+            ent = CODE.get((v["k"], v.get("wrap")))
+            if ent and ent[0] not in lines:
+                lines.append(ent[0])
+
         def sv(v):
             p = repr(build_val_plain(v))
-            w = v.get("wrap")
-            if w == "lazy":
-                return ("LazyDense(%s)" if v["k"] == "dense" else "LazySparse(%s)") % p
-            if w == "hashable":
-                return ("HashableDense(%s)" if v["k"] == "dense" else "HashableSparse(%s)") % p
-            return p
+            if v["k"] == "dense" and v.get("wrap") not in (None, "list", "tuple"):
+                p = repr(list(build_val_plain(v)))
+            ent = CODE.get((v["k"], v.get("wrap")))
+            return ent[1] % p if ent else p
         if any(it.get("q") for one in [{"ns": ns} for ns in calls] for it in all_items(one)) or any((not isinstance(t, str)) and t.get("q") for t in case["terms"]):
             lines.append("from fractions import Fraction")
         cps = list(case.get("copies") or [])
